@@ -364,6 +364,19 @@ fn find_from(hay: &[u8], needle: &[u8], from: usize) -> Option<usize> {
     hay[from..].windows(needle.len()).position(|w| w == needle).map(|p| from + p)
 }
 
+/// non-overlapping occurrences of `needle` in `hay`
+fn count_occurrences(hay: &[u8], needle: &[u8]) -> usize {
+    if needle.is_empty() {
+        return 0;
+    }
+    let (mut n, mut from) = (0, 0);
+    while let Some(p) = find_from(hay, needle, from) {
+        n += 1;
+        from = p + needle.len();
+    }
+    n
+}
+
 /// the harness's own reading of a literal pattern (third implementation, next to Lean and regex)
 fn lit_matches(l: &Lit, s: &[u8]) -> bool {
     let p = l.2.as_bytes();
@@ -666,6 +679,46 @@ fn judge(ctx: &mut Ctx, case: &Case, witness_mode: bool) -> Outcome {
                 "true" => if text.contains('\n') { "multi-line" } else { "single-line inside H18" },
                 _ => "outside H18 (F20/F21)",
             }));
+            // Where the real rule attached the comment: the number of code tokens written before the
+            // comment that holds it (first such comment for `start`, last for `end`). The model attaches
+            // to the first / last statement token of the file in writing order; darklua to what
+            // `mutate_first_token` / `mutate_last_token` return, which the AST may define otherwise
+            // (an attribute before `function`, a union type at the end of a type declaration). The
+            // property says nothing about the position, so the position-dependent comparisons (exact
+            // output bytes, comment order, line of every token) apply when both agree — always demanded
+            // on the fixed files — and the position-free ones (below) in every case.
+            let fixed_file = append_files().contains(&src.as_str());
+            let lo_early = ctx.lex(&out);
+            let real_pos: Option<usize> = {
+                let mut n_tok = 0usize;
+                let mut found: Vec<usize> = Vec::new();
+                for (is_com, i) in &lo_early.order {
+                    if *is_com {
+                        if !ct.is_empty() && contains(&lo_early.coms[*i].0, &ct) {
+                            found.push(n_tok);
+                        }
+                    } else {
+                        n_tok += 1;
+                    }
+                }
+                match loc {
+                    Loc::Start => found.first().cloned(),
+                    Loc::End => found.last().cloned(),
+                }
+            };
+            // the model's attach point (same rule as the driver's `toFile`: a final `;` is a block token)
+            let after = if lbase.toks.len() >= 2 && lbase.toks.last().map(|t| t.bytes == b";").unwrap_or(false) { 1 } else { 0 };
+            let model_pos = match loc {
+                Loc::Start => 0,
+                Loc::End => lbase.toks.len() - after,
+            };
+            let same_attach = real_pos == Some(model_pos);
+            if !ct.is_empty() && real_pos.is_some() {
+                o.hist(
+                    "append_attach_point",
+                    if same_attach { "first/last statement token of the file (as the model)" } else { "another token (AST's notion of first/last token)" },
+                );
+            }
             // --- correspondence: the comment bytes
             let expected: Option<Vec<u8>> = if ct.is_empty() {
                 Some(base.clone().into_bytes())
@@ -674,8 +727,7 @@ fn judge(ctx: &mut Ctx, case: &Case, witness_mode: bool) -> Outcome {
                     Loc::Start => [ct.clone(), b"\n".to_vec()].concat(),
                     Loc::End => ct.clone(),
                 })
-            } else if *loc == Loc::Start && (witness_mode || lsrc.toks.first().map(|t| t.bytes != b"@").unwrap_or(true)) {
-                // (a leading attribute is not the token `mutate_first_token` returns: F28)
+            } else if *loc == Loc::Start && (same_attach || fixed_file) {
                 Some([ct.clone(), b"\n".to_vec(), base.clone().into_bytes()].concat())
             } else {
                 None
@@ -721,11 +773,39 @@ fn judge(ctx: &mut Ctx, case: &Case, witness_mode: bool) -> Outcome {
                 o.violate("oracle", &format!("append_{}", name), what.clone(), case, true);
             }
             // --- correspondence: token model (code, comments up to merging, lines)
-            let attribute_first = *loc == Loc::Start && lsrc.toks.first().map(|t| t.bytes == b"@").unwrap_or(false);
-            if attribute_first {
-                o.hist("append_first_token", "attribute (comment lands behind it: F28)");
+            let oracle_ok = fails.iter().all(|f| f.0 == "O4");
+            if inside && !ct.is_empty() && oracle_ok && corr_fail.is_none() {
+                // position-free: the comment exists exactly once more than before …
+                if lo.coms.len() == lbase.coms.len() + 1 {
+                    let occ = |l: &Lexed| -> usize { l.coms.iter().map(|c| count_occurrences(&c.0, &ct)).sum() };
+                    if occ(&lo) != occ(&lbase) + 1 {
+                        corr_fail = Some((
+                            "comment_once".to_owned(),
+                            format!("the model's comment {:?} occurs {} times in the comments of the output, {} times before", show(&ct), occ(&lo), occ(&lbase)),
+                        ));
+                    }
+                }
+                // … the tokens written before it move down by exactly the model's shift, those after it by at least that
+                if faithful && lo.code() == lbase.code() {
+                    if let Some(p) = real_pos {
+                        let (rl, bl) = (lo.lines(), lbase.lines());
+                        let bad = (0..rl.len()).find(|&i| if i < p { rl[i] != bl[i] + nlines } else { rl[i] < bl[i] + nlines });
+                        if let Some(i) = bad {
+                            corr_fail = Some((
+                                "model_shift".to_owned(),
+                                format!("token {} moves from line {} to {}, model shift {} (comment attached after {} tokens)", i, bl[i], rl[i], nlines, p),
+                            ));
+                        }
+                    }
+                }
+                if fixed_file && !same_attach {
+                    corr_fail = Some((
+                        "attach_position".to_owned(),
+                        format!("comment found after {:?} code tokens, the model attaches it after {}", real_pos, model_pos),
+                    ));
+                }
             }
-            if inside && !attribute_first && fails.iter().all(|f| f.0 == "O4") && corr_fail.is_none() {
+            if inside && same_attach && oracle_ok && corr_fail.is_none() {
                 match ctx.model_view(case) {
                     Some(Ok(view)) => {
                         let real_code: Vec<Vec<u8>> = lo.toks.iter().map(|t| t.bytes.clone()).collect();
@@ -740,7 +820,6 @@ fn judge(ctx: &mut Ctx, case: &Case, witness_mode: bool) -> Outcome {
                         let cat_model: Vec<u8> = view.comments.iter().flatten().cloned().collect();
                         // where exactly the comment lands among the other comments depends on which token
                         // the AST calls first/last (attributes, union types, …): compared on the fixed files only
-                        let fixed_file = append_files().contains(&src.as_str());
                         if faithful && fixed_file {
                             if cat_real != cat_model {
                                 corr_fail = Some((
